@@ -585,10 +585,14 @@ def _perm_fns():
             grad_re=jax.grad(re), grad_im=jax.grad(im),
             jit_re=jax.jit(jax.grad(re)), jit_im=jax.jit(jax.grad(im)),
             vmap_re=jax.vmap(jax.grad(re), in_axes=(0, None, None)),
-            vmap_im=jax.jit(jax.vmap(jax.grad(im), in_axes=(0, None, None))),
+            vmap_im=jax.vmap(jax.grad(im), in_axes=(0, None, None)),
             jac=jax.jacrev(lambda M, r, c: perm(M, r, c), holomorphic=True),
             jac_ri=jax.jacrev(lambda M, r, c: jnp.stack([re(M, r, c), im(M, r, c)])),
         )
+        # compiled twins (one compilation per matrix shape); the traced-every-call
+        # originals are used on every 8th pattern only
+        for name in ("vmap_re", "vmap_im", "jac", "jac_ri"):
+            _PERM_FNS[name + ":jit"] = jax.jit(_PERM_FNS[name])
     return _PERM_FNS
 
 
@@ -598,7 +602,9 @@ B_NONSQUARE = "C10:jax:perm:nonsquare-gradient"
 def prop_perm(case, ctx):
     jax = _jax()
     jnp = jax.numpy
-    F = _perm_fns()
+    F0 = _perm_fns()
+    slow = case["seed"] % 8 == 0
+    F = {k: (v if slow or k + ":jit" not in F0 else F0[k + ":jit"]) for k, v in F0.items()}
     rows, cols = [int(r) for r in case["rows"]], [int(c) for c in case["cols"]]
     nr, nc = len(rows), len(cols)
     total = sum(rows)
@@ -689,6 +695,18 @@ def perm_nonsquare_patterns(tier):
     return _shuffled(cases, 7)
 
 
+def _mine(cases):
+    """Place this framework-shard's share of an enumeration at the indices the driver
+    gives to this shard (index % nshards == shard); other positions are never evaluated."""
+    if FW is None:
+        return cases
+    mine = cases[_FW_RANK::_FW_COUNT]
+    out = []
+    for c in mine:
+        out += [None] * _SHARD + [c] + [None] * (_NSHARDS - _SHARD - 1)
+    return out
+
+
 def tall_cases(tier):
     return [{"rows": [1, 1], "cols": [2], "seed": 10}, {"rows": [1, 0, 1], "cols": [1, 1],
                                                        "seed": 8}]
@@ -748,8 +766,6 @@ def perm_large_case(draw):
 
 
 def prop_perm_large(case, ctx):
-    if len(case["rows"]) == 1:
-        pass
     if _O is not None and _O.binomial_overflow_bound(case["rows"]) >= 2**31:
         ctx.exclude("C04:permanent:binomial-int-overflow")
         return
@@ -828,7 +844,7 @@ def prop_interferometer_rule(case, ctx):
     """_calculate_interferometer_gradient_on_fock_space against finite differences of the
     block representation computed by the connector."""
     tf = _tf()
-    from piquasso._simulators.fock.pure.simulation_steps import passive_linear as PL
+    PL = sys.modules["piquasso._simulators.fock.pure.simulation_steps.passive_linear"]
     from piquasso._simulators.fock.simulation_steps import (
         calculate_interferometer_helper_indices,
     )
@@ -896,6 +912,104 @@ def interferometer_rule_case(draw):
             "upstream": draw(st.sampled_from(["static", "static", "static", "symbolic"]))}
 
 
+def prop_apply_rule(case, ctx):
+    """The VJPs of applying a single-mode matrix / the Fock-space blocks of an
+    interferometer to a (batched) state vector, against the explicit Jacobian: both maps
+    are linear in the state and in the matrices, so d out/d x_k = F(e_k) exactly, with F
+    the NumPy forward pass of the same step."""
+    tf = _tf()
+    from piquasso._simulators.fock.pure import simulation_steps as SS
+    PL = sys.modules["piquasso._simulators.fock.pure.simulation_steps.passive_linear"]
+    from piquasso._simulators.fock.simulation_steps import (
+        calculate_index_list_for_appling_interferometer,
+        calculate_state_index_matrix_list,
+    )
+
+    d, cutoff, kind, nb = case["d"], case["cutoff"], case["kind"], case["batch"]
+    rng = progs.rng_of(case["seed"])
+    dim = K.fock_dim(d, cutoff)
+    shape = (dim, nb) if nb else (dim,)
+    psi = _rand_complex(rng, shape)
+    up = _rand_complex(rng, shape)
+    npc = pq.NumpyConnector()
+    connector = pq.TensorflowConnector()
+    modes = tuple(case["modes"])
+    ctx.case(case, d >= 2, ["rule_apply_" + kind, "rule_" + case["upstream"],
+                            "rule_apply_batch" if nb else "rule_apply_single"])
+    if kind == "active":
+        idx = calculate_state_index_matrix_list(d, cutoff, modes[0])
+        mats = [_rand_complex(rng, (cutoff, cutoff))]
+
+        def forward(x, ms):
+            return np.asarray(SS._calculate_state_vector_after_apply_active_gate(
+                x, ms[0], idx, npc))
+
+        grad_fn = SS._create_linear_active_gate_gradient_function(psi, mats[0], idx,
+                                                                  connector)
+    else:
+        idx = calculate_index_list_for_appling_interferometer(modes, d, cutoff)
+        k = len(modes)
+        mats = [_rand_complex(rng, (math.comb(n + k - 1, k - 1),) * 2)
+                for n in range(cutoff)]
+
+        def forward(x, ms):
+            return np.asarray(PL._calculate_state_vector_after_interferometer(
+                x, ms, idx, npc))
+
+        grad_fn = PL._create_linear_passive_gate_gradient_function(psi, mats, idx,
+                                                                   connector)
+    if case["upstream"] == "static":
+        res = grad_fn(tf.constant(up))
+    else:
+        @tf.function
+        def sym(u):
+            return grad_fn(u)
+
+        res = sym(tf.constant(up))
+    g_state = np.asarray(res[0])
+    g_mats = [np.asarray(res[1])] if kind == "active" else [np.asarray(m) for m in res[1]]
+
+    def contract(y):  # TensorFlow convention: sum(upstream * conj(d out))
+        return np.sum(up * np.conj(y))
+
+    exp_state = np.zeros(shape, dtype=complex)
+    for pos in np.ndindex(*shape):
+        e = np.zeros(shape, dtype=complex)
+        e[pos] = 1.0
+        exp_state[pos] = contract(forward(e, mats))
+    tag = f"C10:rule:apply_{kind}_gate"
+    suffix = (":batch" if nb else "") + ":" + case["upstream"]
+    info = f"d={d} cutoff={cutoff} modes={modes} batch={nb} seed={case['seed']}"
+    if g_state.shape != exp_state.shape or \
+            np.any(np.abs(g_state - exp_state) > 1e-9 * (1 + np.abs(exp_state))):
+        raise Violation(tag + ":state" + suffix,
+                        f"{info}: VJP w.r.t. the initial state differs from the explicit "
+                        f"Jacobian by {np.max(np.abs(g_state - exp_state)):.3g}")
+    for n, M in enumerate(mats):
+        exp = np.zeros(M.shape, dtype=complex)
+        for pos in np.ndindex(*M.shape):
+            ms = [np.zeros_like(m) for m in mats]
+            ms[n][pos] = 1.0
+            exp[pos] = contract(forward(psi, ms))
+        got = g_mats[n]
+        if got.shape != exp.shape or np.any(np.abs(got - exp) > 1e-9 * (1 + np.abs(exp))):
+            raise Violation(tag + ":matrix" + suffix,
+                            f"{info}: VJP w.r.t. matrix #{n} differs from the explicit "
+                            f"Jacobian by {np.max(np.abs(got - exp)):.3g}")
+
+
+@st.composite
+def apply_rule_case(draw):
+    d = draw(st.integers(1, 3))
+    kind = draw(st.sampled_from(["active", "passive"]))
+    k = 1 if kind == "active" else draw(st.integers(1, d))
+    return {"d": d, "cutoff": draw(st.integers(2, 5 if d == 3 else 6)), "kind": kind,
+            "modes": draw(progs.ordered_modes(d, k)),
+            "batch": draw(st.sampled_from([0, 0, 2, 3])),
+            "seed": draw(st.integers(0, 2**30)),
+            "upstream": draw(st.sampled_from(["static", "static", "symbolic"]))}
+
+
 # --------------------------------------------------------------------------------------
 # parts
 
@@ -915,39 +1029,41 @@ def parts(tier):
 
     if both or FW == "tf":
         ps += [
-            Part("tf_eager", prop_circuit, strategy=circuit_case("tf", TF_EAGER),
-                 examples=ex(24, 420), budget_s={"quick": 150, "thorough": 6000}),
-            Part("tf_compiled", prop_circuit,
-                 strategy=circuit_case("tf", TF_COMPILED, max_gates=3, max_d=2, max_cutoff=4,
-                                       max_points=1),
-                 examples=ex(8, 80), budget_s={"quick": 120, "thorough": 6000},
-                 shrink=False),
+            Part("rule_matrices", prop_matrix_rule, strategy=matrix_rule_case(),
+                 examples=ex(160, 4000), budget_s={"quick": 25, "thorough": 1200}),
+            Part("rule_apply", prop_apply_rule, strategy=apply_rule_case(),
+                 examples=ex(60, 1500), budget_s={"quick": 25, "thorough": 1200}),
+            Part("rule_interferometer", prop_interferometer_rule,
+                 strategy=interferometer_rule_case(),
+                 examples=ex(40, 1000), budget_s={"quick": 25, "thorough": 1200}),
             Part("tf_linear_gates", prop_circuit, kind="enum",
                  cases=lambda t: _mine(tf_linear_cases(t)),
                  budget_s={"quick": 60, "thorough": 600}),
-            Part("rule_matrices", prop_matrix_rule, strategy=matrix_rule_case(),
-                 examples=ex(160, 4000), budget_s={"quick": 40, "thorough": 1200}),
-            Part("rule_interferometer", prop_interferometer_rule,
-                 strategy=interferometer_rule_case(),
-                 examples=ex(40, 1000), budget_s={"quick": 40, "thorough": 1200}),
+            Part("tf_eager", prop_circuit, strategy=circuit_case("tf", TF_EAGER),
+                 examples=ex(24, 420), budget_s={"quick": 110, "thorough": 6000}),
+            Part("tf_compiled", prop_circuit,
+                 strategy=circuit_case("tf", TF_COMPILED, max_gates=3, max_d=2, max_cutoff=4,
+                                       max_points=1),
+                 examples=ex(8, 80), budget_s={"quick": 80, "thorough": 6000},
+                 shrink=False),
         ]
     if both or FW == "jax":
         ps += [
             Part("perm", prop_perm, kind="enum", cases=lambda t: _mine(perm_patterns(t)),
-                 budget_s={"quick": 90, "thorough": 6000}),
+                 budget_s={"quick": 70, "thorough": 6000}),
             Part("perm_nonsquare", prop_perm, kind="enum",
                  cases=lambda t: _mine(perm_nonsquare_patterns(t)),
-                 budget_s={"quick": 40, "thorough": 1200}),
+                 budget_s={"quick": 20, "thorough": 1200}),
             Part("perm_nonsquare_tall", prop_perm_tall, kind="enum",
                  cases=lambda t: _mine(tall_cases(t)),
                  budget_s={"quick": 120, "thorough": 1200}),
             Part("perm_large", prop_perm_large, strategy=perm_large_case(),
-                 examples=ex(24, 600), budget_s={"quick": 30, "thorough": 3000}),
+                 examples=ex(24, 600), budget_s={"quick": 20, "thorough": 3000}),
             Part("jax_eager", prop_circuit, strategy=circuit_case("jax", JAX_EAGER),
-                 examples=ex(20, 400), budget_s={"quick": 150, "thorough": 6000}),
+                 examples=ex(20, 400), budget_s={"quick": 100, "thorough": 6000}),
             Part("jax_jit", prop_circuit,
                  strategy=circuit_case("jax", JAX_COMPILED, max_gates=4),
-                 examples=ex(8, 100), budget_s={"quick": 100, "thorough": 6000},
+                 examples=ex(8, 100), budget_s={"quick": 70, "thorough": 6000},
                  shrink=False),
         ]
     return ps
